@@ -263,8 +263,11 @@ def getItemOld [Zero K] [Add K] (b : Basis K) (ix : Index) : Except IdxErr (Item
 
 `x = argmin ‖A x − b‖²` through the normal equations `Aᴴ A x = Aᴴ b`, solved exactly by
 Gauss–Jordan elimination; `none` when `Aᴴ A` is singular (dependent modes).  `conj` is complex
-conjugation (`id` for a real scalar).  The result is certified by `normalResidual = 0`
-(see `Properties/C14.lean`: a solution of the normal equations minimises the residual). -/
+conjugation (`id` for a real scalar).  The driver certifies every result it prints by checking
+`normalResidual conj b x y = 0` and `x.length = nmodes` exactly; `Properties/C14.lean` proves that
+these two facts make `x` a minimiser of the residual (`normal_eq_minimises`, `…_complex`), hence
+equal to `c` when `y = A·c` with independent modes (`lstsq_certified_recovers`), and that the
+result does not depend on the storage form (`coefficients_storage_independent`). -/
 
 def elimRow [Zero K] [Sub K] [Mul K] (k : Nat) (p r : List K) : List K :=
   let f := r.getD k 0
